@@ -415,7 +415,7 @@ class Arc3D(object):
 
     def __key(self):
         """A tuple based on the object properties, useful for hashing."""
-        return (hash(self.plane), self.radius, self.a1, self.a2)
+        return (self.plane, self.radius, self.a1, self.a2)
 
     def __hash__(self):
         return hash(self.__key())
